@@ -13,7 +13,7 @@ EXTENDS Markup, Json, IOUtils, TLCExt
 
 Traces == JsonDeserialize(IOEnv.TRACE_FILE)
 Has(r, f) == f \in DOMAIN r
-Inserting == {"wrap_offset", "wrap_pattern", "mark_occurrence", "mark_position", "mark_range"}
+Inserting == {"wrap_offset", "wrap_pattern", "mark_occurrence", "mark_position", "mark_range", "mark_content"}
 
 (* calls harvested from the repository's own tests: the arguments are not translated, only the class of the call  *)
 (* is known - the clauses of C09 / C05 that are stated on the observation alone still apply                        *)
@@ -29,7 +29,9 @@ ModelVerdict(ev) ==
         (* a paragraph without any text node: whether position 0 exists depends on an unobservable detail *)
         (* (text "" or no text at all), so both "not found" and "inserted at the very start" are accepted *)
         alt == IF ev.op.op = "mark_position" /\ ev.op.pos = 0 /\ MarkSlotPosition(ev.pre, 0) = 0
-               THEN Flat(<<E("bm", 0)>> \o ev.pre) ELSE want
+               THEN Flat(<<E("bm", 0)>> \o ev.pre)
+               ELSE IF ev.op.op = "mark_range" /\ ev.op.a = 0 /\ ev.op.b = 0 /\ MarkSlotPosition(ev.pre, 0) = 0
+               THEN Flat(<<E("bm", 0), E("bm", 0)>> \o ev.pre) ELSE want
     IN  (IF Flat(ev.post) \notin {want, alt} THEN {"differs-from-model"} ELSE {})
    \cup (IF ev.op.op \in Inserting /\ Vis(ev.post) # Vis(ev.pre) THEN {"text-altered"} ELSE {})
    \cup (IF ev.op.op = "strip_tags" /\ Vis(ev.post) # Vis(ev.pre) THEN {"removal-lost-text"} ELSE {})
